@@ -63,7 +63,9 @@ LEVEL_TEXT = ("Seeded histories (incl. failing operations, range queries, "
               "sticky after any operation and every clean node must be "
               "evictable; also run on the ASan+UBSan build. Sampling (the "
               "thorough tier enumerates every comparison index of sampled "
-              "operations).")
+              "operations; directed steps sweep at EVERY comparison of a "
+              "range that has to come back to the left sibling subtree and "
+              "of a delete whose key is a separator two levels up).")
 LEVEL = {"quick": "exploration", "thorough": "exploration"}
 
 
